@@ -363,7 +363,7 @@ func (m *monitor) onCtrlSend(msg messaging.Msg) {
 	case memcontrolprotocol.CmdDrain:
 		if ow := m.owed(); len(ow) > 0 {
 			m.fail("drain/ack-while-work-is-owed",
-				"%s: Drain id=%d acknowledged while %d retrieved requests are unanswered:%s. Document: \"Drain (async) stops accepting new traffic, lets in-flight work finish, and acks once the component is quiescent — landing in the paused state.\"",
+				"%s: Drain id=%d acknowledged while %d retrieved requests are unanswered:%s. Document, verb table: \"Drain: Stop accepting new traffic; let in-flight transactions finish; end in the paused state.\" and per-component behavior: \"Drain (async) stops accepting new traffic, lets in-flight work finish, and acks once the component is quiescent — landing in the paused state.\"",
 				m.agent, c.id, len(ow), describe(ow))
 		}
 		m.st = stDrained
